@@ -88,14 +88,48 @@ def all_same_lang(obj, name):
     return all(all_same_lang(x, name) for x in obj._subformula)
 
 
+def next_map(G):
+    """Adjacency mapping of a library graph: the private dict itself when the class still keeps one under
+    this name (object identities are then meaningful for aliasing checks), else a copy read through the
+    public API (identity checks on it are vacuous, value checks unaffected)."""
+    m = getattr(G, '_next', None)
+    if isinstance(m, dict):
+        return m
+    return dict((v, set(G.next(v))) for v in G.nodes())
+
+
+def label_map(K):
+    """Labelling mapping of a library Kripke structure (private dict, else read through labels())."""
+    m = getattr(K, '_labels', None)
+    if isinstance(m, dict):
+        return m
+    return dict((s, set(K.labels(s))) for s in K.states())
+
+
+def owns_adjacency(G):
+    return isinstance(getattr(G, '_next', None), dict)
+
+
+def owns_labels(K):
+    return isinstance(getattr(K, '_labels', None), dict)
+
+
+def adjacency_ids(G):
+    """id of every private adjacency set (empty when the graph has no private dict of that name)."""
+    if not owns_adjacency(G):
+        return {}
+    return dict((v, id(G._next[v])) for v in G._next)
+
+
 def snapshot_kripke(K):
     """Deep, order-insensitive snapshot of a library Kripke structure."""
     def key(x):
         return repr(x)
-    states = sorted(K._next.keys(), key=key)
+    nx, lb = next_map(K), label_map(K)
+    states = sorted(nx.keys(), key=key)
     return (tuple(repr(s) for s in states),
-            tuple((repr(s), tuple(sorted(repr(d) for d in K._next[s]))) for s in states),
-            tuple((repr(s), tuple(sorted(repr(a) for a in K._labels[s]))) for s in states)
-            if set(K._labels.keys()) == set(states) else ('LABEL-KEYS-DIFFER',
-                                                          tuple(sorted(repr(x) for x in K._labels.keys()))),
+            tuple((repr(s), tuple(sorted(repr(d) for d in nx[s]))) for s in states),
+            tuple((repr(s), tuple(sorted(repr(a) for a in lb[s]))) for s in states)
+            if set(lb.keys()) == set(states) else ('LABEL-KEYS-DIFFER',
+                                                   tuple(sorted(repr(x) for x in lb.keys()))),
             tuple(sorted(repr(s) for s in K.S0)))
